@@ -15,3 +15,18 @@ func tickArm(budget uint64, onTrip func()) {
 func tickDisarm() { vs.Next = ^uint64(0) }
 
 const ticksAvailable = true
+
+// coverage feedback of the instrumented copy (sites executed since the last reset)
+func covReset() { vs.Cov = [1 << 16]uint8{} }
+
+// covNew adds the sites executed since the last reset to seen and returns how many were new.
+func covNew(seen *[1 << 16]uint8) int {
+	n := 0
+	for i, b := range vs.Cov {
+		if b != 0 && seen[i] == 0 {
+			seen[i] = 1
+			n++
+		}
+	}
+	return n
+}
